@@ -209,6 +209,7 @@ func (it *Interp) resetPath(prefix []int) {
 	it.inputMeta = map[string]string{}
 	it.recoverable = nil
 	it.wrapped = map[*Object]Value{}
+	it.fixed = map[string]*Term{}
 	it.gzipUnder = map[*Object]Value{}
 	it.pathNotes = nil
 	it.stack = nil
@@ -480,6 +481,10 @@ func runHarness(prog *ssa.Program, pkgs map[string]*ssa.Package, cfg *HarnessCfg
 						}
 						it.funcHits = wrep.Funcs
 						it.sv = NewSolver(solverKind, cfg.TimeoutMs)
+						if it.mode == Math {
+							it.sv.Fallback = "cvc5"
+							it.sv.FirstTimeoutMs = 4000
+						}
 						if it.mode == Bits {
 							// measured: 20x faster than z3's default strategy on the BV/FP queries produced here
 							it.sv.Tactic = "(then simplify fpa2bv simplify propagate-values solve-eqs bit-blast simplify sat)"
